@@ -86,10 +86,12 @@ spec fn vals(s: Seq<Item>) -> Seq<InternalValue> { Seq::new(s.len(), |i: int| s[
 spec fn krank(it: Item) -> int { it->Ok_0.key.user_key.rank() }
 
 /// length of the maximal prefix of Ok entries with key rank k
-spec fn same_key_prefix(s: Seq<Item>, k: int) -> nat
+/// entries `drain_key(key, keep_weak_tombstones, keep_tombstones)` stops in front of
+spec fn kept(v: InternalValue, kw: bool, kt: bool) -> bool { (kt && dead(v)) || (kw && v.key.value_type == ValueType::WeakTombstone) }
+spec fn same_key_prefix(s: Seq<Item>, k: int, kw: bool, kt: bool) -> nat
     decreases s.len()
 {
-    if s.len() == 0 { 0 } else if s[0] is Ok && krank(s[0]) == k { 1 + same_key_prefix(s.skip(1), k) } else { 0 }
+    if s.len() == 0 { 0 } else if s[0] is Ok && krank(s[0]) == k && !kept(s[0]->Ok_0, kw, kt) { 1 + same_key_prefix(s.skip(1), k, kw, kt) } else { 0 }
 }
 
 
@@ -105,7 +107,7 @@ spec fn chunks_ok<F: StreamFilter>(r: Seq<Item>, a: int, b: int, evict: bool) ->
         let h0 = r[a]->Ok_0;
         if fdrop::<F>(h0) { chunks_ok::<F>(r, a + 1, b, evict) } else {
             let h = applied::<F>(h0);
-            let m = same_key_prefix(r.skip(a + 1), h.key.user_key.rank()) as int;
+            let m = same_key_prefix(r.skip(a + 1), h.key.user_key.rank(), false, !evict) as int;
             !ferr::<F>(h0)
             && ( (dead(h) && evict) || (h.key.value_type == ValueType::WeakTombstone && m >= 1 && r[a + 1]->Ok_0.key.value_type == ValueType::Value) )
             && a + 1 + m <= b && chunks_ok::<F>(r, a + 1 + m, b, evict)
@@ -125,7 +127,7 @@ proof fn lemma_chunks_append<F: StreamFilter>(r: Seq<Item>, a: int, mid: int, b:
             lemma_chunks_append::<F>(r, a + 1, mid, b, evict);
         } else {
             let h = applied::<F>(h0);
-            let m = same_key_prefix(r.skip(a + 1), h.key.user_key.rank()) as int;
+            let m = same_key_prefix(r.skip(a + 1), h.key.user_key.rank(), false, !evict) as int;
             lemma_chunks_append::<F>(r, a + 1 + m, mid, b, evict);
         }
     }
@@ -186,6 +188,8 @@ spec fn step_struct<F: StreamFilter>(r0: Seq<Item>, r1: Seq<Item>, evict: bool, 
                 && applied::<F>(r0[i]->Ok_0).value == x.value
                 && (!zero ==> r0[i]->Ok_0.key.seqno == x.key.seqno)
                 && (forall|j: int| i < j < n ==> krank(#[trigger] r0[j]) == x.key.user_key.rank())
+                // C13 (N2): versions dropped beneath an emitted live entry never include a weak tombstone unless this is the last level
+                && (!evict && !dead(applied::<F>(r0[i]->Ok_0)) ==> forall|j: int| i < j < n ==> (#[trigger] r0[j])->Ok_0.key.value_type != ValueType::WeakTombstone)
                 && chunks_ok::<F>(r0, 0, i, evict),
     }
 }
@@ -221,12 +225,12 @@ impl<F: StreamFilter> CompactionStream<F> {
     }
 
     #[verifier::external_body]
-    fn drain_key(&mut self, key: &UserKey) -> (r: Result<(), Error>)
+    fn drain_key(&mut self, key: &UserKey, keep_weak_tombstones: bool, keep_tombstones: bool) -> (r: Result<(), Error>)
         ensures
             final(self).same_cfg(old(self)),
             ({
                 let s = old(self).inner.rest();
-                let n = same_key_prefix(s, key.rank()) as int;
+                let n = same_key_prefix(s, key.rank(), keep_weak_tombstones, keep_tombstones) as int;
                 if n < s.len() && s[n] is Err {
                     r is Err && r->Err_0 == s[n]->Err_0 && final(self).inner.rest() == s.skip(n + 1)
                 } else {
@@ -238,34 +242,28 @@ impl<F: StreamFilter> CompactionStream<F> {
 
 //@ FROM src/compaction/stream.rs :: Iterator for CompactionStream :: fn next :: OBL C17.1, C09.1
 //@ SUBST `Self :: Item` ==> `Item`
-    /*+*/#[verifier::rlimit(1500)]/*-*/
-    fn next(&mut self) -> /*+*/(r:/*-*/ Option<Item>/*+*/)
+ /*+*/#[verifier::rlimit(1500)]/*-*/ fn next (&mut self) ->  /*+*/(r:/*-*/ Option < Item >  /*+*/)
         requires keys_sorted(old(self).inner.rest()), old(self).has_cb(),
         ensures
             final(self).same_cfg(old(self)),
             step_struct::<F>(old(self).inner.rest(), final(self).inner.rest(), old(self).evict_tombstones, old(self).zero_seqnos, r),   // @OBL C17.1
             step_log::<F>(old(self).inner.rest(), final(self).inner.rest(), old(self).log(), final(self).log(), old(self).zero_seqnos, r),   // @OBL C09.1
-        /*-*/
-    {
-        /*+*/let ghost r0 = self.inner.rest();
+        /*-*/ {
+ /*+*/let ghost r0 = self.inner.rest();
         let ghost l0 = self.log();
         let ghost mut k: int = 0;
-        proof { assert(r0.skip(0) =~= r0); assert(vals(r0.take(0)) =~= Seq::<InternalValue>::empty()); assert(live(l0) + live(Seq::<InternalValue>::empty()) =~= live(l0)); }/*-*/   // @OBL C09.1
-        loop
-            /*+*/invariant
+        proof { assert(r0.skip(0) =~= r0); assert(vals(r0.take(0)) =~= Seq::<InternalValue>::empty()); assert(live(l0) + live(Seq::<InternalValue>::empty()) =~= live(l0)); }/*-*/ loop  /*+*/invariant
                 self.same_cfg(old(self)),
                 0 <= k <= r0.len(), self.inner.rest() == r0.skip(k), all_ok(r0.take(k)),
                 r0 == old(self).inner.rest(), keys_sorted(r0), chunks_ok::<F>(r0, 0, k, self.evict_tombstones),   // @OBL C17.1
                 self.has_cb(), l0 == old(self).log(),
                 live(self.log()) == live(l0) + live(vals(r0.take(k))),   // @OBL C09.1
-            decreases self.inner.rest().len()/*-*/
-        {
-            /*+*/proof {
+            decreases self.inner.rest().len()/*-*/ {
+ /*+*/proof {
                 if k == r0.len() { assert(r0.take(k) =~= r0); }
                 else { assert(r0.skip(k).skip(1) =~= r0.skip(k + 1)); assert(r0.skip(k)[0] == r0[k]); }
-            }/*-*/
-            let mut head = fail_iter!(self.inner.next()?);
-            /*+*/proof {
+            }/*-*/ let mut head = fail_iter !(self.inner.next ()?);
+ /*+*/proof {
                 // head == r0[k], rest == r0.skip(k+1)
                 assert(r0.skip(k).skip(1) =~= r0.skip(k + 1));
                 assert(r0.skip(k)[0] == r0[k]);
@@ -280,24 +278,22 @@ impl<F: StreamFilter> CompactionStream<F> {
                 assert(vals(r0.take(h + 1)) =~= vals(r0.take(h)).push(r0[h]->Ok_0));
                 lemma_live_push(vals(r0.take(h)), r0[h]->Ok_0);   // @OBL C09.1
             }
-            proof { assert(chunks_ok::<F>(r0, 0, h, self.evict_tombstones)); assert(head == r0[h]->Ok_0); k = k + 1; }/*-*/   // @OBL C17.1
-
-            if !head.is_tombstone() {
-                match fail_iter!(self.filter.filter_item(&head)) {
-                    StreamFilterVerdict::Keep => { /* Do nothing */ }
-                    StreamFilterVerdict::Replace((new_type, new_value)) => {
-                        // If we are replacing this item's value, call the dropped callback for the previous item
-                        if let Some(watcher) = &mut self.dropped_callback {
-                            watcher.on_dropped(&head);
-                        }
-                        head.value = new_value;
-                        head.key.value_type = new_type;
-                    }
-                    StreamFilterVerdict::Drop => {
-                        if let Some(watcher) = &mut self.dropped_callback {
-                            watcher.on_dropped(&head);
-                        }
-                        /*+*/proof {
+            proof { assert(chunks_ok::<F>(r0, 0, h, self.evict_tombstones)); assert(head == r0[h]->Ok_0); k = k + 1; }/*-*/ if !head.is_tombstone () {
+match fail_iter !(self.filter.filter_item (&head)) {
+StreamFilterVerdict::Keep => {
+}
+StreamFilterVerdict::Replace ((new_type, new_value)) => {
+if let Some (watcher) = &mut self.dropped_callback {
+watcher.on_dropped (&head);
+}
+head.value = new_value;
+head.key.value_type = new_type;
+}
+StreamFilterVerdict::Drop => {
+if let Some (watcher) = &mut self.dropped_callback {
+watcher.on_dropped (&head);
+}
+ /*+*/proof {
                             assert(fdrop::<F>(r0[h]->Ok_0));
                             assert(chunks_ok::<F>(r0, h + 1, h + 1, self.evict_tombstones));   // @OBL C17.1
                             assert(chunks_ok::<F>(r0, h, h + 1, self.evict_tombstones));   // @OBL C17.1
@@ -305,20 +301,16 @@ impl<F: StreamFilter> CompactionStream<F> {
                             assert(self.log() == lg.push(head));   // @OBL C09.1
                             lemma_live_push(lg, head);   // @OBL C09.1
                             assert((live(l0) + live(vals(r0.take(h)))).push(head) =~= live(l0) + live(vals(r0.take(h))).push(head));   // @OBL C09.1
-                        }/*-*/
-
-                        // Ignore
-                        continue;
-                    }
-                }
-            }
-
-            /*+*/let ghost lg2 = self.log();   // @OBL C09.1
+                        }/*-*/ continue;
+}
+}
+}
+ /*+*/let ghost lg2 = self.log();   // @OBL C09.1
             let ghost h0 = r0[h]->Ok_0;
             proof {
-                assert(head.key.user_key == h0.key.user_key && head.key.seqno == h0.key.seqno);
-                assert(head.key.value_type == applied::<F>(h0).key.value_type && head.value == applied::<F>(h0).value);
-                assert(!fdrop::<F>(h0) && !ferr::<F>(h0));
+                assert(head.key.user_key == h0.key.user_key &&head.key.seqno == h0.key.seqno);
+                assert(head.key.value_type == applied::<F>(h0).key.value_type &&head.value == applied::<F>(h0).value);
+                assert(!fdrop::<F>(h0) &&!ferr::<F>(h0));
                 if freplaced::<F>(h0) {
                     assert(lg2 == lg.push(h0));   // @OBL C09.1
                     lemma_live_push(lg, h0);   // @OBL C09.1
@@ -328,44 +320,33 @@ impl<F: StreamFilter> CompactionStream<F> {
                     assert(lg2 == lg);   // @OBL C09.1
                     if dead(h0) { assert(live(lg2) == live(l0) + live(vals(r0.take(h + 1)))); }   // @OBL C09.1
                 }
-            }/*-*/
-
-            if let Some(peeked) = self.inner.peek() {
-                let Ok(peeked) = peeked else {
-                    /*+*/proof { assert(r0.skip(k).skip(1) =~= r0.skip(k + 1)); assert(r0.skip(k)[0] == r0[k]); }/*-*/
-                    return Some(Err(self
-                        .inner
-                        .next()
-                        .expect("value should exist")
-                        .expect_err("should be error")));
-                };
-
-                if peeked.key.user_key > head.key.user_key {
-                    if head.is_tombstone() && self.evict_tombstones {
-                        /*+*/proof {
+            }/*-*/ if let Some (peeked) = self.inner.peek () {
+let Ok (peeked) = peeked else {
+ /*+*/proof { assert(r0.skip(k).skip(1) =~= r0.skip(k + 1)); assert(r0.skip(k)[0] == r0[k]); }/*-*/ return Some (Err (self.inner.next ().expect ("value should exist").expect_err ("should be error")));
+}
+;
+if peeked.key.user_key > head.key.user_key {
+if head.is_tombstone () &&self.evict_tombstones {
+ /*+*/proof {
                             assert(r0.skip(h + 1)[0] == r0[h + 1]);
-                            assert(same_key_prefix(r0.skip(h + 1), r0[h]->Ok_0.key.user_key.rank()) == 0);
+                            assert(same_key_prefix(r0.skip(h + 1), r0[h]->Ok_0.key.user_key.rank(), false, !self.evict_tombstones) == 0);
                             assert(chunks_ok::<F>(r0, h + 1, h + 1, self.evict_tombstones));   // @OBL C17.1
                             assert(chunks_ok::<F>(r0, h, h + 1, self.evict_tombstones));   // @OBL C17.1
                             lemma_chunks_append::<F>(r0, 0, h, h + 1, self.evict_tombstones);   // @OBL C17.1
-                        }/*-*/
-                        continue;
-                    }
-
-                    // NOTE: Only item of this key and thus latest version, so return it no matter what
-                    // ...
-                } else if peeked.key.seqno < self.gc_seqno_threshold {
-                    if head.key.value_type == ValueType::Tombstone && self.evict_tombstones {
-                        /*+*/let ghost s = self.inner.rest();
+                        }/*-*/ continue;
+}
+}
+else if peeked.key.seqno < self.gc_seqno_threshold {
+if head.key.value_type == ValueType::Tombstone &&self.evict_tombstones {
+ /*+*/let ghost s = self.inner.rest();
                         proof {
-                            let m0 = same_key_prefix(s, head.key.user_key.rank()) as int;
-                            lemma_prefix(s, head.key.user_key.rank());
+                            let m0 = same_key_prefix(s, head.key.user_key.rank(), false, false) as int;
+                            lemma_prefix(s, head.key.user_key.rank(), false, false);
                             if m0 < s.len() { assert(r0.skip(k).skip(m0 + 1) =~= r0.skip(k + m0 + 1)); assert(r0.skip(k)[m0] == r0[k + m0]); }
-                        }/*-*/
-                        fail_iter!(self.drain_key(&head.key.user_key));
-                        /*+*/proof {
-                            let m = same_key_prefix(s, head.key.user_key.rank()) as int;
-                            lemma_prefix(s, head.key.user_key.rank());
+                        }/*-*/ fail_iter !(self.drain_key (&head.key.user_key, false, false));
+ /*+*/proof {
+                            let m = same_key_prefix(s, head.key.user_key.rank(), false, false) as int;
+                            lemma_prefix(s, head.key.user_key.rank(), false, false);
                             assert(r0.skip(k).skip(m) =~= r0.skip(k + m));
                             lemma_take_ok(r0, k, m, head.key.user_key.rank());
                             assert(chunks_ok::<F>(r0, h + 1 + m, h + 1 + m, self.evict_tombstones));   // @OBL C17.1
@@ -376,27 +357,20 @@ impl<F: StreamFilter> CompactionStream<F> {
                             lemma_live_add(vals(r0.take(h + 1)), vals(s.take(m)));   // @OBL C09.1
                             assert((live(l0) + live(vals(r0.take(h + 1)))) + live(vals(s.take(m))) =~= live(l0) + (live(vals(r0.take(h + 1))) + live(vals(s.take(m)))));   // @OBL C09.1
                             k = k + m;
-                        }/*-*/
-                        continue;
-                    }
-
-                    // NOTE: If next item is an actual value, and current value is weak tombstone,
-                    // drop the tombstone
-                    let drop_weak_tombstone = peeked.key.value_type == ValueType::Value
-                        && head.key.value_type == ValueType::WeakTombstone;
-
-                    // NOTE: Next item is expired,
-                    // so the tail of this user key is entirely expired, so drain it all
-                    /*+*/let ghost s = self.inner.rest();
+                        }/*-*/ continue;
+}
+let drop_weak_tombstone = peeked.key.value_type == ValueType::Value &&head.key.value_type == ValueType::WeakTombstone;
+let keep_tombstones = drop_weak_tombstone &&!self.evict_tombstones;
+let keep_weak_tombstones = !head.is_tombstone () &&!self.evict_tombstones;
+ /*+*/let ghost s = self.inner.rest();
                     proof {
-                        let m0 = same_key_prefix(s, head.key.user_key.rank()) as int;
-                        lemma_prefix(s, head.key.user_key.rank());
+                        let m0 = same_key_prefix(s, head.key.user_key.rank(), keep_weak_tombstones, keep_tombstones) as int;
+                        lemma_prefix(s, head.key.user_key.rank(), keep_weak_tombstones, keep_tombstones);
                         if m0 < s.len() { assert(r0.skip(k).skip(m0 + 1) =~= r0.skip(k + m0 + 1)); assert(r0.skip(k)[m0] == r0[k + m0]); }
-                    }/*-*/
-                    fail_iter!(self.drain_key(&head.key.user_key));
-                    /*+*/proof {
-                        let m = same_key_prefix(s, head.key.user_key.rank()) as int;
-                        lemma_prefix(s, head.key.user_key.rank());
+                    }/*-*/ fail_iter !(self.drain_key (&head.key.user_key, keep_weak_tombstones, keep_tombstones));
+ /*+*/proof {
+                        let m = same_key_prefix(s, head.key.user_key.rank(), keep_weak_tombstones, keep_tombstones) as int;
+                        lemma_prefix(s, head.key.user_key.rank(), keep_weak_tombstones, keep_tombstones);
                         assert(r0.skip(k).skip(m) =~= r0.skip(k + m));
                         lemma_take_ok(r0, k, m, head.key.user_key.rank());
                         lemma_vals_split(r0, h + 1, m);   // @OBL C09.1
@@ -406,38 +380,36 @@ impl<F: StreamFilter> CompactionStream<F> {
                         lemma_live_add(vals(r0.take(h)), vals(s.take(m)));   // @OBL C09.1
                         assert((live(l0) + live(vals(r0.take(h)))) + live(vals(s.take(m))) =~= live(l0) + (live(vals(r0.take(h))) + live(vals(s.take(m)))));   // @OBL C09.1
                         dr = m;
+                        assert forall|j: int| h < j < h + 1 + m implies !kept((#[trigger] r0[j])->Ok_0, keep_weak_tombstones, keep_tombstones) by {   // @OBL C17.1
+                            assert(s[j - (h + 1)] == r0[j]);
+                        }
                         k = k + m;
-                    }/*-*/
-
-                    if drop_weak_tombstone {
-                        /*+*/proof {
-                            let m = same_key_prefix(s, head.key.user_key.rank()) as int;
+                    }/*-*/ if drop_weak_tombstone {
+ /*+*/proof {
+                            let m = same_key_prefix(s, head.key.user_key.rank(), keep_weak_tombstones, keep_tombstones) as int;
                             assert(s[0] == r0[h + 1]);
                             assert(krank(r0[h]) <= krank(r0[h + 1]));
                             assert(m >= 1);
                             assert(chunks_ok::<F>(r0, h + 1 + m, h + 1 + m, self.evict_tombstones));   // @OBL C17.1
                             assert(chunks_ok::<F>(r0, h, h + 1 + m, self.evict_tombstones));   // @OBL C17.1
                             lemma_chunks_append::<F>(r0, 0, h, h + 1 + m, self.evict_tombstones);   // @OBL C17.1
-                        }/*-*/
-                        continue;
-                    }
-                }
-            } else if head.is_tombstone() && self.evict_tombstones {
-                /*+*/proof {
+                        }/*-*/ continue;
+}
+}
+}
+else if head.is_tombstone () &&self.evict_tombstones {
+ /*+*/proof {
                     assert(r0.skip(h + 1).len() == 0);
-                    assert(same_key_prefix(r0.skip(h + 1), r0[h]->Ok_0.key.user_key.rank()) == 0);
+                    assert(same_key_prefix(r0.skip(h + 1), r0[h]->Ok_0.key.user_key.rank(), false, !self.evict_tombstones) == 0);
                     assert(chunks_ok::<F>(r0, h + 1, h + 1, self.evict_tombstones));   // @OBL C17.1
                     assert(chunks_ok::<F>(r0, h, h + 1, self.evict_tombstones));   // @OBL C17.1
                     lemma_chunks_append::<F>(r0, 0, h, h + 1, self.evict_tombstones);   // @OBL C17.1
-                }/*-*/
-                continue;
-            }
-
-            if self.zero_seqnos && head.key.seqno < self.gc_seqno_threshold {
-                head.key.seqno = 0;
-            }
-
-            /*+*/proof {
+                }/*-*/ continue;
+}
+if self.zero_seqnos &&head.key.seqno < self.gc_seqno_threshold {
+head.key.seqno = 0;
+}
+ /*+*/proof {
                 assert(r0[h] is Ok) by { assert(r0.take(h + 1)[h] is Ok); }
                 assert(k == h + 1 + dr);
                 assert(r0.take(k).remove(h) =~= r0.take(h) + r0.skip(h + 1).take(dr));
@@ -451,25 +423,25 @@ impl<F: StreamFilter> CompactionStream<F> {
                     assert(live(vals(r0.take(h + 1))) + live(Seq::<InternalValue>::empty()) =~= live(vals(r0.take(h + 1))));   // @OBL C09.1
                     assert(r0.take(k) =~= r0.take(h + 1));
                 }
-            }/*-*/
-            return Some(Ok(head));
-        }
-    }
+            }/*-*/ return Some (Ok (head));
+}
+}
+
 //@ END
 
 }
 
 /// the first `same_key_prefix` entries are Ok with that key, and the prefix is within bounds
-proof fn lemma_prefix(s: Seq<Item>, kk: int)
+proof fn lemma_prefix(s: Seq<Item>, kk: int, kw: bool, kt: bool)
     ensures
-        same_key_prefix(s, kk) <= s.len(),
-        forall|j: int| 0 <= j < same_key_prefix(s, kk) ==> (#[trigger] s[j]) is Ok && krank(s[j]) == kk,
+        same_key_prefix(s, kk, kw, kt) <= s.len(),
+        forall|j: int| 0 <= j < same_key_prefix(s, kk, kw, kt) ==> (#[trigger] s[j]) is Ok && krank(s[j]) == kk && !kept(s[j]->Ok_0, kw, kt),
     decreases s.len()
 {
     if s.len() == 0 {
-    } else if s[0] is Ok && krank(s[0]) == kk {
-        lemma_prefix(s.skip(1), kk);
-        assert forall|j: int| 0 <= j < same_key_prefix(s, kk) implies (#[trigger] s[j]) is Ok && krank(s[j]) == kk by {
+    } else if s[0] is Ok && krank(s[0]) == kk && !kept(s[0]->Ok_0, kw, kt) {
+        lemma_prefix(s.skip(1), kk, kw, kt);
+        assert forall|j: int| 0 <= j < same_key_prefix(s, kk, kw, kt) implies (#[trigger] s[j]) is Ok && krank(s[j]) == kk && !kept(s[j]->Ok_0, kw, kt) by {
             if j > 0 { assert(s.skip(1)[j - 1] == s[j]); }
         }
     }
